@@ -350,3 +350,31 @@ Example C07_assembly_example :
   = Ok (KTuple [KBool true; BindK107a.enc_names ["b"; "d"]; BindK107a.enc_names ["a"]])
   /\ BindK107a.names_with BindK107a.is_kwargs (BindK107a.passing_of true BindK107a.ex_layout) = ["c"].
 Proof. split; vm_compute; reflexivity. Qed.
+
+(* ---- (T) the field block is the translated source (kernel K107b = FieldUnpackerCodeBlockBuilder.build with
+        _set_value / _try_set_value, regenerated every run, returning the emitted lines as a tree of the templates of
+        the source's string literals): the block that the translated build emits for a member - for its default as
+        get_field_default returns it (K107a), its nullability (K17), identity or converting unpacker expression, alias
+        and allow_deserialization_not_by_alias - run by the interpreter of the emitted Python subset
+        (BindK107b.run: reads of d, tests against MISSING / None, raise MissingField, try / bare except ->
+        InvalidFieldValue, assignment to __f / kwargs['f']) does exactly what Bind.field_block says, for every member
+        and every input.  build is run on two uninterpreted names (BindK107b.FNAME / ALIAS); a read under them is the
+        lookup of the member's name / alias ---- *)
+From Verif Require BindK107b.
+Theorem C07_field_block_is_code : forall conv nba m d,
+  BindK107b.run_block conv nba m d = Some (field_block conv nba m d).
+Proof. exact BindK107b.field_block_is_code. Qed.
+Print Assumptions C07_field_block_is_code.
+
+(* non-vacuity: the emitted block of a nullable, converting field with default 0 read under alias or name
+   (allow_deserialization_not_by_alias) has 3 top-level statements; null under the alias key wins over the name key
+   and over the default; an absent key leaves kwargs alone; a value the unpacker rejects raises InvalidFieldValue *)
+Example C07_field_block_example :
+  let run gn ga := BindK107b.run_block_of true true false true (DVal (PInt 0)) gn ga
+                     (fun v => match v with PInt z => Some (PInt z) | _ => None end) in
+  (exists b, BindK107b.code_block_of true true false true (DVal (PInt 0)) = Ok (KList b) /\ List.length b = 3)
+  /\ run (Some (PInt 7)) (Some PNone) = Some (FbSet PNone)
+  /\ run (Some (PInt 7)) None = Some (FbSet (PInt 7))
+  /\ run None None = Some FbSkip
+  /\ run None (Some (PStr "x")) = Some FbInvalid.
+Proof. cbv zeta. split; [eexists; split; vm_compute; reflexivity|]. repeat split; vm_compute; reflexivity. Qed.
